@@ -216,6 +216,8 @@ type Cluster struct {
 	CrashedAt   string
 	crashDone   bool
 	ctlCrash    bool
+	crashDone2  bool
+	CrashedAt2  string // FileStore: where the second planned crash hit
 	// LogObservers see every append/truncate/discard of every node's log.
 	LogObservers []func(node int, op string, index uint64, entries []*raft.LogEntry)
 	Stagger      bool // election timeouts are staggered per node (timed runs)
